@@ -878,8 +878,12 @@ class Evaluator(flow.Client):
                 self._ev('write', s, self.val(t.value, st), st, what=norm(t.value))
             elif isinstance(t, (ast.Name, ast.Attribute)):
                 v = self.val(t, st)
-                if is_arrayish(v) or U in v and not (v <= {U, NA, INT}):
+                if is_arrayish(v) and not (v & {NA, INT, SLICE, U}):
+                    # definitely an array: `x += y` mutates it in place
                     self._ev('write', s, v, st, what=norm(t))
+                elif is_arrayish(v) or U in v and not (v <= {U, NA, INT}):
+                    # may be a scalar (rebinding) or an array (in place): never a violation
+                    self._ev('write', s, frozenset(x for x in v if x != F) | AV_U, st, what=norm(t))
                 elif v <= {INT} or v <= {NA, INT}:
                     pass
                 else:
@@ -1011,6 +1015,20 @@ class Evaluator(flow.Client):
             if p is not None and p in st.env and not truth:
                 st = st.copy()
                 st.env[p] = AV_F
+            elif p is not None and p in st.env and truth:
+                # known writable on this branch: not owned read-only storage (some caller's or local array)
+                def strip(a: AV) -> AV:
+                    out = set()
+                    for x in a:
+                        if x == F:
+                            out.add(('P', '<writable>'))
+                        elif isinstance(x, tuple) and x[0] == 'L':
+                            out.add(('L', strip(x[1])))
+                        else:
+                            out.add(x)
+                    return frozenset(out)
+                st = st.copy()
+                st.env[p] = strip(st.env[p])
             return st
         # `x is False / True / None` true branch: x is not an array
         if isinstance(atom, ast.Compare) and len(atom.ops) == 1 and isinstance(atom.ops[0], ast.Is) and truth \
